@@ -146,8 +146,8 @@ def ks(N, **extra):
 
 def fixed(value, name):
     """partition on an option / first code point: absent parameter = unconstrained"""
-    want = P(name, '*')
-    if want == '*':
+    want = P(name, '\0any')
+    if want == '\0any':
         return True
     if isinstance(want, str) and not isinstance(value, bool):
         return value == ord(want)
